@@ -4,6 +4,7 @@ package c18
 import (
 	"bytes"
 	"encoding/json"
+	"errors"
 	"fmt"
 	"os"
 	"strings"
@@ -11,6 +12,8 @@ import (
 	"time"
 
 	"github.com/robertkrimen/otto"
+	"github.com/robertkrimen/otto/ast"
+	"github.com/robertkrimen/otto/parser"
 
 	"verif/harness/internal/c01"
 	"verif/harness/internal/core"
@@ -19,6 +22,7 @@ import (
 
 // per-runtime hook state (otto.VerifStep is a package-level hook)
 type hookState struct {
+	paused  bool // preparation (declaring main, compiling) is not part of the observed run
 	count   int
 	armAt   int
 	fired   int // poll count at which the interrupt function ran (0 = never)
@@ -34,6 +38,9 @@ func init() {
 			return
 		}
 		h := v.(*hookState)
+		if h.paused {
+			return
+		}
 		h.count++
 		if h.count == h.armAt {
 			o.Interrupt <- func() {
@@ -75,6 +82,7 @@ func payloadOf(k int) any {
 }
 
 type injection struct {
+	Route     string  `json:"route"`
 	K         int     `json:"k"`
 	Delivered bool    `json:"delivered"`
 	Panicked  bool    `json:"panicked"`
@@ -84,17 +92,44 @@ type injection struct {
 	Fl        c01.Obs `json:"fl"`
 }
 
-type traceLine struct {
-	ID     int     `json:"id"`
-	Prog   []c01.N `json:"prog"`
-	Follow []c01.N `json:"follow"`
-	Limit  int     `json:"limit"`
-	Full   struct {
-		First  c01.Obs `json:"first"`
-		Second c01.Obs `json:"second"`
-	} `json:"full"`
-	Ints []injection `json:"ints"`
+// fullRun: P started through `route` and run to its end, then Q on the same runtime.
+type fullRun struct {
+	Route  string  `json:"route"`
+	First  c01.Obs `json:"first"`
+	Second c01.Obs `json:"second"`
+	Depth  int     `json:"depth"`
+	Labels int     `json:"labels"`
 }
+
+// hostPanic: P started through `route`, the host function H panics at its k-th call of the run.
+type hostPanic struct {
+	Route     string  `json:"route"`
+	K         int     `json:"k"`
+	Delivered bool    `json:"delivered"`
+	GoPanic   bool    `json:"gopanic"` // the panic left the entry point (nothing in the script caught it)
+	First     c01.Obs `json:"first"`
+	Depth     int     `json:"depth"`
+	Labels    int     `json:"labels"`
+	Fl        c01.Obs `json:"fl"`
+}
+
+type traceLine struct {
+	ID     int         `json:"id"`
+	Prog   []c01.N     `json:"prog"` // the program equivalent to the entry (see spec/C18.tla)
+	Follow []c01.N     `json:"follow"`
+	Limit  int         `json:"limit"`  // stack depth limit of the equivalent program
+	FLimit int         `json:"flimit"` // stack depth limit of the runtime while the follow-up runs
+	Eval   bool        `json:"eval"`   // P is eval code (Otto.Eval on the runtime at rest)
+	Fulls  []fullRun   `json:"fulls"`
+	Ints   []injection `json:"ints"`
+	HPs    []hostPanic `json:"hps"`
+}
+
+// the value a panicking host function panics with (ES5Core CallIn, kind host: "boom")
+const hostPanicValue = "boom"
+
+// probeLimit: the stack depth limit configured before the follow-up when the program ran without one
+const probeLimit = 5
 
 // follow-up program: observes the globals the programs use and exercises
 // calls, try/catch/finally and a loop on the runtime that was just unwound.
@@ -107,6 +142,12 @@ func followUp() []c01.N {
 			c01.Try([]c01.N{c01.Throw(c01.Num(1))}, "e", []c01.N{c01.Expr(c01.Call(id("H"), id("e")))}, true, []c01.N{c01.Expr(c01.Call(id("H"), c01.Num(2)))}, true),
 			c01.For(c01.Var("i", c01.Num(0)), c01.Bin("<", id("i"), c01.Num(2)), c01.Upd("++", false, id("i")), c01.Block(c01.Expr(c01.Asg("+", id("zq"), id("i"))))),
 			c01.Return(id("zq"))))),
+		// the nesting the runtime admits now (a stack depth limit is always configured while the follow-up runs):
+		// after any exit the limit admits exactly the configured nesting
+		c01.Var("zn", c01.Num(0)),
+		c01.FDecl("zp", nil, c01.Expr(c01.Upd("++", false, id("zn"))), c01.Expr(c01.Call(id("zp")))),
+		c01.Try([]c01.N{c01.Expr(c01.Call(id("zp")))}, "e",
+			[]c01.N{c01.Expr(c01.Call(id("H"), c01.Str("nest"), id("zn"), c01.Bin("instanceof", id("e"), id("RangeError"))))}, true, nil, false),
 	}
 }
 
@@ -229,12 +270,57 @@ func apiCalls() []*apiCall {
 	return out
 }
 
-// runAPI declares rec by a script, then makes the call through the API while the runtime is idle.
-func (r *runner) runAPI(a *apiCall) (obs c01.Obs, panicked any) {
-	if _, p := r.run(a.setup); p != nil {
-		return c01.Obs{}, p
+// rec is one trace line in the making: a program, the class of entry points it is started
+// through (routes that have the same equivalent program for the specification share the line).
+type rec struct {
+	line   traceLine
+	src    string   // what is submitted (run/eval classes), or the body of main (call class)
+	setup  string   // run first, not part of the observed run
+	routes []string // routes[0] takes every injection point, the others share them in turn (thorough tier: every one)
+	api    *apiCall // non-nil: a call made through the API on the idle runtime
+	inject bool
+	cbMode int
+}
+
+var routesOf = map[string][]string{
+	"run":  {"source", "script", "program"},
+	"eval": {"eval-source", "eval-script"},
+	// main is also the getter and the setter of the global accessor property mainA
+	"call": {"otto.Call", "Value.Call", "Object.Call", "Otto.Get(getter)", "Otto.Set(setter)", "Object.Get(getter)", "Object.Set(setter)"},
+}
+
+// accessorSetup (call class) is part of the preparation only: the follow-up does not look at mainA
+const accessorSetup = `Object.defineProperty(this, "mainA", {get: main, set: main, configurable: true, enumerable: false});`
+
+// start submits the line's program through the entry point `route` while the runtime is idle.
+func (r *runner) start(rc *rec, route string) (obs c01.Obs, panicked any) {
+	// preparation: not part of the observed run (the hook does not count, H does not panic)
+	r.hs.paused = true
+	hpAt := r.hpAt
+	r.hpAt = 0
+	var sc *otto.Script
+	var prog *ast.Program
+	var fn otto.Value
+	var obj *otto.Object
+	var perr error
+	if rc.setup != "" {
+		if _, p := r.run(rc.setup); p != nil {
+			return c01.Obs{}, p
+		}
 	}
-	r.log = nil
+	switch route {
+	case "script", "eval-script":
+		sc, perr = r.vm.Compile("", rc.src)
+	case "program":
+		prog, perr = parser.ParseFile(nil, "", rc.src, 0)
+	case "Value.Call":
+		fn, perr = r.vm.Get("main")
+	case "Object.Call", "Object.Get(getter)", "Object.Set(setter)":
+		obj, perr = r.vm.Object("this")
+	case "Value.Call(script function)", "Value.Call(built-in call)", "Object.Call(built-in call)":
+		fn, perr = r.vm.Get("rec")
+	}
+	r.hs.paused, r.hs.count, r.hpAt, r.log = false, 0, hpAt, nil
 	defer func() {
 		if p := recover(); p != nil {
 			panicked = p
@@ -245,18 +331,47 @@ func (r *runner) runAPI(a *apiCall) (obs c01.Obs, panicked any) {
 		}
 	}()
 	var v otto.Value
-	var err error
-	rec, _ := r.vm.Get("rec")
-	switch a.form {
-	case "otto.Call":
-		v, err = r.vm.Call("rec", nil, a.d)
-	case "Value.Call(script function)":
-		v, err = rec.Call(otto.UndefinedValue(), a.d)
-	case "Value.Call(built-in call)":
-		callFn, _ := rec.Object().Get("call")
-		v, err = callFn.Call(rec, nil, a.d)
-	default:
-		v, err = rec.Object().Call("call", nil, a.d)
+	err := perr
+	if err == nil {
+		switch route {
+		case "source":
+			v, err = r.vm.Run(rc.src)
+		case "script":
+			v, err = r.vm.Run(sc)
+		case "program":
+			v, err = r.vm.Run(prog)
+		case "eval-source":
+			v, err = r.vm.Eval(rc.src)
+		case "eval-script":
+			v, err = r.vm.Eval(sc)
+		case "otto.Call":
+			if rc.api != nil {
+				v, err = r.vm.Call("rec", nil, rc.api.d)
+			} else {
+				v, err = r.vm.Call("main", nil)
+			}
+		case "Value.Call":
+			v, err = fn.Call(otto.UndefinedValue())
+		case "Object.Call":
+			v, err = obj.Call("main")
+		case "Otto.Get(getter)":
+			v, err = r.vm.Get("mainA")
+		case "Otto.Set(setter)":
+			err = r.vm.Set("mainA", 1)
+		case "Object.Get(getter)":
+			v, err = obj.Get("mainA")
+		case "Object.Set(setter)":
+			err = obj.Set("mainA", 1)
+		case "Value.Call(script function)":
+			v, err = fn.Call(otto.UndefinedValue(), rc.api.d)
+		case "Value.Call(built-in call)":
+			callFn, _ := fn.Object().Get("call")
+			v, err = callFn.Call(fn, nil, rc.api.d)
+		case "Object.Call(built-in call)":
+			v, err = fn.Object().Call("call", nil, rc.api.d)
+		default:
+			err = fmt.Errorf("unknown route %q", route)
+		}
 	}
 	return c01.MakeObs(r.log, v, err), nil
 }
@@ -281,9 +396,59 @@ func limitMidRun(variant int) []c01.N {
 }
 
 type runner struct {
-	vm  *otto.Otto
-	log [][]any
-	hs  *hookState
+	vm      *otto.Otto
+	log     [][]any
+	hs      *hookState
+	hpAt    int // H panics at this call of the observed run (0: never)
+	hpFired bool
+	cbMode  int
+}
+
+// armHostPanic replaces the host function H by one that does the same (records its projected
+// arguments, returns the first) and panics with a plain Go value at its k-th call of the run, after
+// recording it (ES5Core CallIn, kind host, st.hpanic).
+func (r *runner) armHostPanic(k int) {
+	r.hpAt = k
+	r.vm.Set("H", func(call otto.FunctionCall) otto.Value {
+		args := make([]any, len(call.ArgumentList))
+		for i, a := range call.ArgumentList {
+			args[i] = c01.Proj(a)
+		}
+		r.log = append(r.log, args)
+		if r.hpAt > 0 && len(r.log) == r.hpAt {
+			r.hpFired = true
+			panic(hostPanicValue)
+		}
+		return call.Argument(0)
+	})
+	// CB (c01.NewVMMode) hands the error of its API call back by panicking with it.  Once a try/finally
+	// inside the callback has seen the host function's panic, it is a thrown JavaScript string, and the
+	// nested API call reports a thrown primitive as a plain Go error (the text of the value): handing
+	// that on must throw the same string again (the specification's hostcb lets a thrown value pass
+	// unchanged), not a Go error value.
+	var cbArg otto.Value
+	r.vm.Set("CBARG", func(call otto.FunctionCall) otto.Value { return cbArg })
+	r.vm.Set("CB", func(call otto.FunctionCall) otto.Value {
+		var v otto.Value
+		var err error
+		switch r.cbMode % 3 {
+		case 1:
+			v, err = call.Otto.Call("(function(f){ return f() })", nil, call.Argument(0))
+		case 2:
+			cbArg = call.Argument(0)
+			v, err = call.Otto.Eval("CBARG()()")
+		default:
+			v, err = call.Argument(0).Call(otto.UndefinedValue())
+		}
+		if err != nil {
+			if _, isOtto := err.(*otto.Error); !isOtto && r.hpFired {
+				thrown, _ := otto.ToValue(err.Error())
+				panic(thrown)
+			}
+			panic(err)
+		}
+		return v
+	})
 }
 
 // cbMode: the API entry point the host function CB calls back through (see c01.NewVMMode)
@@ -293,6 +458,7 @@ func newRunner(armAt int, payload any, limit int, cbMode ...int) *runner {
 	if len(cbMode) > 0 {
 		mode = cbMode[0]
 	}
+	r.cbMode = mode
 	r.vm = c01.NewVMMode(&r.log, mode)
 	if limit > 0 {
 		r.vm.SetStackDepthLimit(limit)
@@ -350,25 +516,34 @@ func Check(c *core.Ctx) (map[string]any, []string, error) {
 		n, err := busyLoops(c)
 		return map[string]any{"busy_loop_forms_interrupted": n}, nil, err
 	}
-	nProg, maxInj := 72, 60
+	nProg, maxInj, maxHP := 72, 60, 8
+	nEntry := 24 // programs started through each of the other classes of entry points (eval, call)
 	if c.Thorough() {
-		nProg, maxInj = 400, 400
+		nProg, maxInj, maxHP, nEntry = 400, 400, 40, 100
 	}
 	if s := os.Getenv("VERIF_C18_PROGRAMS"); s != "" {
 		fmt.Sscan(s, &nProg)
+	}
+	if s := os.Getenv("VERIF_C18_ENTRY"); s != "" {
+		fmt.Sscan(s, &nEntry)
 	}
 	g := c01.NewGen(c.Seed + 1000)
 	g.MaxDepth, g.MaxTop = 2, 4 // the judge evaluates every abort point of every program: keep programs small
 	follow := followUp()
 	followSrc := c01.RenderProgram(follow)
-	type rec struct {
-		line traceLine
-		src  string
-		api  *apiCall // non-nil: the last statement is made through the API on the idle runtime instead
+	flimitOf := func(limit int) int {
+		if limit > 0 {
+			return limit
+		}
+		return probeLimit
 	}
-	recs := make([]*rec, nProg)
-	for i := range recs {
-		p := g.Program()
+	var recs []*rec
+	add := func(r *rec, prog []c01.N, limit, flimit int, eval bool) {
+		r.line.ID, r.line.Prog, r.line.Follow, r.line.Limit, r.line.FLimit, r.line.Eval = len(recs)+1, prog, follow, limit, flimit, eval
+		recs = append(recs, r)
+	}
+	// family: the bodies appended to the generated statements
+	family := func(p []c01.N, i int) ([]c01.N, int) {
 		limit := 0
 		if i%3 == 2 {
 			// a stack depth limit and a recursion around it (the limit admits exactly limit-1 nested calls)
@@ -381,49 +556,105 @@ func Check(c *core.Ctx) (map[string]any, []string, error) {
 			// an API call made by a host function while the script runs
 			p = append(p, nested(i/6)...)
 		}
-		recs[i] = &rec{src: c01.RenderProgram(p)}
-		recs[i].line.ID, recs[i].line.Prog, recs[i].line.Follow, recs[i].line.Limit = i+1, p, follow, limit
+		return p, limit
+	}
+	for i := 0; i < nProg; i++ {
+		p, limit := family(g.Program(), i)
+		r := &rec{src: c01.RenderProgram(p), routes: routesOf["run"], inject: true, cbMode: (i + 1) / 6}
+		add(r, p, limit, flimitOf(limit), false)
 	}
 	// the stack depth limit seen from the API: a call made from Go while the runtime is idle admits
-	// exactly the nesting the specification gives for the equivalent program (see apiCall)
+	// exactly the nesting the specification gives for the equivalent program (see apiCall); the
+	// calls that go to the limit or beyond are also left abnormally at every point
 	for _, a := range apiCalls() {
-		r := &rec{src: c01.RenderProgram(a.prog), api: a}
-		r.line.ID, r.line.Prog, r.line.Follow, r.line.Limit = len(recs)+1, a.prog, follow, a.eqLimit
-		recs = append(recs, r)
+		r := &rec{src: c01.RenderProgram(a.prog), setup: a.setup, routes: []string{a.form}, api: a, inject: a.d >= a.limit-1}
+		add(r, a.prog, a.eqLimit, a.limit, false)
+	}
+	// ENTRY POINTS x ABNORMAL EXITS.  The programs above reach the idle runtime through Run (source text,
+	// compiled Script, parsed Program); the programs below through the other entry points that take a
+	// whole program: Eval on the runtime at rest (eval code in the global context) and, wrapped in a
+	// function main that a first script declares, the entry points that call a function from Go
+	// (Otto.Call, Value.Call, Object.Call, and Get/Set of Otto and Object when main is the getter and
+	// setter of a global accessor property).  Each is left at every polling point by an interrupt, at every call of the host
+	// function by its panic, and by whatever exception it does not catch; the specification gives
+	// the equivalent program (spec/C18.tla, ENTRY POINTS).
+	g2 := c01.NewGen(c.Seed + 2000)
+	g2.MaxDepth, g2.MaxTop = 2, 2
+	for i := 0; i < 2*nEntry; i++ {
+		body := g2.Program()
+		if i%2 == 0 {
+			p, limit := family(body, i/2)
+			r := &rec{src: c01.RenderProgram(p), routes: routesOf["eval"], inject: true, cbMode: i / 2}
+			add(r, p, limit, flimitOf(limit), true)
+		} else {
+			if (i/2)%3 == 1 {
+				body = append(body, nested(i/2)...)
+			}
+			// the declarations of the globals a, b, c, n (the first four statements of every generated
+			// program) stay global code, so that the follow-up observes what main did to them
+			setup := append(append([]c01.N{}, body[:4]...), c01.FDecl("main", nil, body[4:]...))
+			p := append(append([]c01.N{}, setup...), c01.Expr(c01.Call(c01.Id("main"))))
+			r := &rec{src: c01.RenderProgram(body[4:]), setup: c01.RenderProgram(setup) + accessorSetup, routes: routesOf["call"], inject: true, cbMode: i / 2}
+			add(r, p, 0, probeLimit, false)
+		}
 	}
 	nProg = len(recs)
 	var wg sync.WaitGroup
 	jobs := make(chan *rec, 64)
 	var mu sync.Mutex
-	var nInj, nPolls int64
+	var nInj, nPolls, nHP, nHPOut, nFull int64
+	perRoute := map[string]int64{}
+	describe := func(r *rec, route string) string {
+		switch {
+		case r.api != nil:
+			return fmt.Sprintf("%s of rec with argument %d under stack depth limit %d, after the script\n%s", route, r.api.d, r.api.limit, r.setup)
+		case r.setup != "":
+			return fmt.Sprintf("%s of main, after the script\n%s", route, r.setup)
+		}
+		return fmt.Sprintf("entry point %s, program:\n%s", route, r.src)
+	}
+	// after: the rest state, then the follow-up under its stack depth limit
+	after := func(rn *runner, flimit int) (depth, labels int, fl c01.Obs, p any) {
+		depth, labels = otto.VerifScopeDepth(rn.vm)-restDepth(), otto.VerifLabelCount(rn.vm)
+		rn.vm.Interrupt = nil
+		rn.hpAt = 0
+		rn.hs.paused = true
+		rn.vm.SetStackDepthLimit(flimit)
+		fl, p = rn.run(followSrc)
+		rn.done()
+		return
+	}
 	for w := 0; w < c.Workers; w++ {
 		wg.Add(1)
 		go func() {
 			defer wg.Done()
 			for r := range jobs {
 				err := watchdog(func() {
-					// uninterrupted run (hook counts polls), then the follow-up on the same runtime
 					limit := r.line.Limit
 					if r.api != nil {
 						limit = r.api.limit
 					}
-					full := newRunner(0, nil, limit, r.line.ID/6)
-					var o1 c01.Obs
-					var p1 any
-					if r.api != nil {
-						o1, p1 = full.runAPI(r.api)
-						full.hs.count = 0 // no injections: the abort points of these programs are covered by the recursion family
-					} else {
-						o1, p1 = full.run(r.src)
+					counts := map[string]int64{}
+					// uninterrupted run through every route (the hook counts polls), then the follow-up on the same runtime
+					polls, nlog := 0, 0
+					pollsOf := map[string]int{} // the routes of a line need not poll equally often (a call expression more or less)
+					for ri, route := range r.routes {
+						full := newRunner(0, nil, limit, r.cbMode)
+						o1, p1 := full.start(r, route)
+						if p1 != nil {
+							c.Violate(fmt.Sprintf("Go panic %v escaped without any interrupt armed: %s", p1, describe(r, route)), map[string]any{"source": r.src, "route": route})
+						}
+						if ri == 0 {
+							polls, nlog = full.hs.count, len(o1.Log)
+						}
+						pollsOf[route] = full.hs.count
+						depth, labels, o2, _ := after(full, r.line.FLimit)
+						r.line.Fulls = append(r.line.Fulls, fullRun{Route: route, First: o1, Second: o2, Depth: depth, Labels: labels})
+						counts[route]++
 					}
-					if p1 != nil {
-						c.Violate(fmt.Sprintf("Go panic %v escaped Run without any interrupt armed:\n%s", p1, r.src), map[string]any{"source": r.src})
+					if !r.inject {
+						polls, nlog = 0, 0
 					}
-					polls := full.hs.count
-					full.vm.Interrupt = nil
-					o2, _ := full.run(followSrc)
-					full.done()
-					r.line.Full.First, r.line.Full.Second = o1, o2
 					ks := []int{}
 					if polls <= maxInj {
 						for k := 1; k <= polls; k++ {
@@ -436,24 +667,75 @@ func Check(c *core.Ctx) (map[string]any, []string, error) {
 						}
 						ks[len(ks)-1] = polls
 					}
-					for _, k := range ks {
-						payload := payloadOf(k)
-						rn := newRunner(k, payload, r.line.Limit, r.line.ID/6)
-						o, p := rn.run(r.src)
-						inj := injection{K: k, Delivered: rn.hs.fired == k, Panicked: samePayload(p, payload), Log: o.Log,
-							Depth: otto.VerifScopeDepth(rn.vm) - restDepth(), Labels: otto.VerifLabelCount(rn.vm)}
-						rn.vm.Interrupt = nil
-						fl, p2 := rn.run(followSrc)
-						if p2 != nil {
-							inj.Panicked = false
+					nk := 0
+					for ki, k := range ks {
+						for ri, route := range r.routes {
+							if ri > 0 && (!c.Thorough() && ki%(len(r.routes)-1) != ri-1 || k > pollsOf[route]) {
+								continue
+							}
+							payload := payloadOf(k)
+							rn := newRunner(k, payload, limit, r.cbMode)
+							o, p := rn.start(r, route)
+							inj := injection{Route: route, K: k, Delivered: rn.hs.fired == k, Panicked: samePayload(p, payload), Log: o.Log}
+							var p2 any
+							inj.Depth, inj.Labels, inj.Fl, p2 = after(rn, r.line.FLimit)
+							if p2 != nil {
+								inj.Panicked = false
+							}
+							r.line.Ints = append(r.line.Ints, inj)
+							counts[route]++
+							nk++
 						}
-						inj.Fl = fl
-						rn.done()
-						r.line.Ints = append(r.line.Ints, inj)
+					}
+					// the host function panics at its h-th call of the run
+					hs := []int{}
+					if nlog <= maxHP {
+						for h := 1; h <= nlog; h++ {
+							hs = append(hs, h)
+						}
+					} else {
+						step := float64(nlog) / float64(maxHP)
+						for j := 0; j < maxHP; j++ {
+							hs = append(hs, 1+int(float64(j)*step))
+						}
+						hs[len(hs)-1] = nlog
+					}
+					nout := 0
+					for hi, h := range hs {
+						route := r.routes[(hi+r.line.ID)%len(r.routes)]
+						rn := newRunner(0, nil, limit, r.cbMode)
+						rn.armHostPanic(h)
+						o, p := rn.start(r, route)
+						x := hostPanic{Route: route, K: h, Delivered: rn.hpFired, First: o}
+						if p != nil {
+							if s, ok := p.(string); ok && s == hostPanicValue && rn.hpFired {
+								// abnormal exit = the observation of an uncaught thrown primitive "boom"
+								x.GoPanic = true
+								x.First = c01.MakeObs(o.Log, otto.UndefinedValue(), errors.New(s))
+								nout++
+							} else {
+								c.Violate(fmt.Sprintf("Go panic %v escaped (the host function panics with %q at its call %d): %s", p, hostPanicValue, h, describe(r, route)),
+									map[string]any{"source": r.src, "route": route, "h": h})
+							}
+						}
+						var p2 any
+						x.Depth, x.Labels, x.Fl, p2 = after(rn, r.line.FLimit)
+						if p2 != nil {
+							c.Violate(fmt.Sprintf("Go panic %v escaped the follow-up script after the host function panicked at its call %d: %s", p2, h, describe(r, route)),
+								map[string]any{"source": r.src, "route": route, "h": h})
+						}
+						r.line.HPs = append(r.line.HPs, x)
+						counts[route]++
 					}
 					mu.Lock()
-					nInj += int64(len(ks))
+					nInj += int64(nk)
 					nPolls += int64(polls)
+					nHP += int64(len(hs))
+					nHPOut += int64(nout)
+					nFull += int64(len(r.routes))
+					for k, v := range counts {
+						perRoute[k] += v
+					}
 					mu.Unlock()
 				})
 				if err != nil {
@@ -471,10 +753,22 @@ func Check(c *core.Ctx) (map[string]any, []string, error) {
 	var buf bytes.Buffer
 	enc := json.NewEncoder(&buf)
 	for _, r := range recs {
+		if r.line.Fulls == nil {
+			r.line.Fulls = []fullRun{}
+		}
 		if r.line.Ints == nil {
 			r.line.Ints = []injection{}
 		}
+		if r.line.HPs == nil {
+			r.line.HPs = []hostPanic{}
+		}
 		enc.Encode(r.line)
+	}
+	if p := os.Getenv("VERIF_C18_TRACE"); p != "" { // development aid: keep the trace for TLC runs by hand
+		os.WriteFile(p, buf.Bytes(), 0o644)
+		if os.Getenv("VERIF_C18_TRACE_ONLY") != "" {
+			return nil, nil, fmt.Errorf("trace written to %s (VERIF_C18_TRACE_ONLY)", p)
+		}
 	}
 	var nUnd, nBad int64
 	res, err := tlc.Run(tlc.Opts{SpecDir: c.SpecDir, Module: "C18",
@@ -484,11 +778,14 @@ func Check(c *core.Ctx) (map[string]any, []string, error) {
 			var v struct {
 				ID     int             `json:"id"`
 				Status string          `json:"status"`
-				K      int             `json:"k"`
+				N      int             `json:"n"`
 				NBad   int             `json:"nbad"`
 				Want   json.RawMessage `json:"want"`
 			}
 			if json.Unmarshal(p, &v) != nil {
+				return
+			}
+			if v.ID < 1 || v.ID > len(recs) {
 				return
 			}
 			r := recs[v.ID-1]
@@ -497,20 +794,33 @@ func Check(c *core.Ctx) (map[string]any, []string, error) {
 				nUnd++
 			case "badfull":
 				nBad++
-				c.Violate(fmt.Sprintf("run followed by a second script on the same runtime: observed %s then %s, specification requires %s; program:\n%s\nfollow-up:\n%s",
-					r.line.Full.First.JSON(), r.line.Full.Second.JSON(), string(v.Want), r.src, followSrc),
-					map[string]any{"source": r.src, "follow": followSrc, "observed": r.line.Full, "required": v.Want})
+				if v.N < 1 || v.N > len(r.line.Fulls) {
+					v.N = 1
+				}
+				f := r.line.Fulls[v.N-1]
+				c.Violate(fmt.Sprintf("run to the end followed by a second script on the same runtime: observed %s, then context depth %d and %d pending labels at rest, then %s; specification requires %s at rest (0, 0); %s\nfollow-up (under stack depth limit %d):\n%s",
+					f.First.JSON(), f.Depth, f.Labels, f.Second.JSON(), string(v.Want), describe(r, f.Route), r.line.FLimit, followSrc),
+					map[string]any{"source": r.src, "setup": r.setup, "route": f.Route, "follow": followSrc, "observed": f, "required": v.Want})
 			case "badint":
 				nBad++
-				var inj injection
-				for _, x := range r.line.Ints {
-					if x.K == v.K {
-						inj = x
-					}
+				if v.N < 1 || v.N > len(r.line.Ints) {
+					v.N = 1
 				}
+				inj := r.line.Ints[v.N-1]
 				b, _ := json.Marshal(inj)
-				c.Violate(fmt.Sprintf("interrupt armed at polling point %d (%d injections of this program not explained): observation %s is not explained by any abort point of the specification; program:\n%s",
-					v.K, v.NBad, string(b), r.src), map[string]any{"source": r.src, "follow": followSrc, "k": v.K, "injection": inj})
+				c.Violate(fmt.Sprintf("interrupt armed at polling point %d (%d injections of this program not explained): observation %s is not explained by any abort point of the specification (delivered at the armed poll, unwound with the panic value, at rest, log and follow-up outcome as of some polling point); %s\nfollow-up (under stack depth limit %d):\n%s",
+					inj.K, v.NBad, string(b), describe(r, inj.Route), r.line.FLimit, followSrc),
+					map[string]any{"source": r.src, "setup": r.setup, "route": inj.Route, "follow": followSrc, "k": inj.K, "injection": inj})
+			case "badhp":
+				nBad++
+				if v.N < 1 || v.N > len(r.line.HPs) {
+					v.N = 1
+				}
+				x := r.line.HPs[v.N-1]
+				b, _ := json.Marshal(x)
+				c.Violate(fmt.Sprintf("host function panicking with the Go string %q at its call %d (%d such runs of this program rejected): observation %s; the specification requires (first = the run, second = the follow-up, the runtime at rest in between) %s; %s\nfollow-up (under stack depth limit %d):\n%s",
+					hostPanicValue, x.K, v.NBad, string(b), string(v.Want), describe(r, x.Route), r.line.FLimit, followSrc),
+					map[string]any{"source": r.src, "setup": r.setup, "route": x.Route, "follow": followSrc, "h": x.K, "observed": x, "required": v.Want})
 			}
 		})
 	if err != nil {
@@ -528,14 +838,17 @@ func Check(c *core.Ctx) (map[string]any, []string, error) {
 		samples = append(samples, "none")
 	}
 	cov := map[string]any{
-		"states": res.Distinct, "transitions": res.Generated, "traces_validated_against_impl": nInj + int64(nProg),
+		"states": res.Distinct, "transitions": res.Generated, "traces_validated_against_impl": nInj + nHP + nFull,
 		"samples": samples, "programs": nProg, "injections": nInj, "polling_points_total": nPolls,
+		"host_panics": nHP, "host_panics_that_left_the_entry_point": nHPOut, "full_runs": nFull, "runs_per_entry_point": perRoute,
 		"undecided_programs": nUnd, "rejected_programs": nBad, "busy_loop_forms_interrupted": busy, "tlc_wall_s": res.Wall,
 	}
 	return cov, []string{
 		"injection uses the build-tag-guarded hook VerifStep (called at every interrupt polling point just before the channel is polled) so that the real select delivers the function",
 		"the abort point is matched existentially against the polling points of the specification: the effects (host-call log prefix, heap as observed by the follow-up program, rest state) are prescribed, the polling granularity is not",
 		"promptness without the hook: busy loops of every loop form are interrupted from another goroutine and must unwind within 10 s",
+		"entry points: a program started by Run (text, Script, Program), by Eval on the runtime at rest, or wrapped in a function called from Go (Otto.Call, Value.Call, Object.Call) is judged through the program that is equivalent to that entry for the specification",
+		"a panicking host function panics with the Go string \"boom\" after recording its call; when nothing in the script catches it, the entry point must unwind with exactly that value (observed as the uncaught thrown primitive)",
 	}, nil
 }
 
